@@ -148,7 +148,7 @@ Fixpoint del_present (s : omd) (ks : list K) : res omd :=
 
 Definition m_update (s o : omd) (a : arg) (kw : pairs) : res omd :=
   match a with
-  | ASelf => Ok s                                        (* if E is self: return *)
+  | ASelf => upd_map s kw                                (* if E is self: E = () *)
   | AOther => do s1 <- del_present s (m_iterkeys o); upd_map (add_all s1 (m_items o)) kw
   | AMap m => do s1 <- upd_map s m; upd_map s1 kw
   | APairs l => do s1 <- upd_pairs s [] l; upd_map s1 kw
